@@ -272,6 +272,12 @@ func genC10(r *simrt.Rand, tier string, idx uint64) *Plan {
 	return p
 }
 
+// releasedOnlyByTeardown: the fault fired, the harness then waited (at least a second of simulated
+// quiet) and began to tear the world down, and only after that did the event at seq happen.
+func releasedOnlyByTeardown(w *World, seq uint64) bool {
+	return w.FaultSeq != 0 && w.TeardownSeq != 0 && w.FaultSeq < w.TeardownSeq && seq > w.TeardownSeq
+}
+
 func checkC10(w *World, run *simrt.Run) {
 	f := w.P.Faults[0]
 	wholeConn := f.Kind != "closestream"
@@ -279,7 +285,7 @@ func checkC10(w *World, run *simrt.Run) {
 		if !s.Opened {
 			// the open may have been in flight when the connection ended: the client saw an
 			// error, but a handler the server started for it must still be released
-			if wholeConn && s.HandlerStart != 0 && s.HandlerEnd == 0 {
+			if wholeConn && s.HandlerStart != 0 && (s.HandlerEnd == 0 || releasedOnlyByTeardown(w, s.HandlerEnd)) {
 				w.Violate("C10.handler-stuck", "handler-of-in-flight-open-stuck:"+f.Kind+":"+w.acceptMode(), fmt.Sprintf("stream %d: the open was in flight when the connection ended (client got %q); the server started its handler, which never returned (accept mode %s)", s.Idx, s.OpenErr, w.acceptMode()))
 			}
 			continue
@@ -291,10 +297,12 @@ func checkC10(w *World, run *simrt.Run) {
 			w.Violate("C10.handler-stuck", "handler-not-released-by-stream-close:"+w.acceptMode(), fmt.Sprintf("stream %d: Close returned (%q) but the server handler was still running when the harness tore the connection down (accept mode %s)", s.Idx, s.CloseErr, w.acceptMode()))
 		}
 		if affected {
-			if s.ClientBlocked {
-				w.Violate("C10.client-reader-stuck", "client-read-stuck:"+f.Kind, fmt.Sprintf("stream %d: client ReadMessage still blocked at end of run after %s", s.Idx, f.Kind))
+			if s.ClientBlocked || (wholeConn && s.ReadErrAtTeardown && w.FaultSeq != 0) {
+				// (a read that only ends when the harness tears the world down, a second or more after
+				// the fault, was not released by the fault)
+				w.Violate("C10.client-reader-stuck", "client-read-stuck:"+f.Kind, fmt.Sprintf("stream %d: client ReadMessage still blocked when the harness tore the world down, after %s", s.Idx, f.Kind))
 			}
-			if s.HandlerStart != 0 && s.HandlerEnd == 0 {
+			if s.HandlerStart != 0 && (s.HandlerEnd == 0 || (wholeConn && releasedOnlyByTeardown(w, s.HandlerEnd))) {
 				w.Violate("C10.handler-stuck", "handler-stuck:"+f.Kind+":"+w.acceptMode(), fmt.Sprintf("stream %d: server handler never returned after %s (accept mode %s)", s.Idx, f.Kind, w.acceptMode()))
 			}
 			if s.AfterRead != "" && s.AfterRead != "stream-shutdown" {
